@@ -18,7 +18,8 @@ VARIABLES l, bad
 \* every one of these paths must have been exercised and must agree
 Paths == {"set", "core-set", "each", "ast-print", "to_cedar", "json", "est-print",
           "set-to_cedar", "set-display", "set-json", "set-json-to_cedar", "set-json-display"}
-FromOf(v) == {v.from[i] : i \in 1..Len(v.from)}
+\* a view: one distinct projection `p` and the (kind, path) pairs that produced it
+UsesOf(v) == {v.as[i] : i \in 1..Len(v.as)}
 
 SxCount(s, x) == Cardinality({j \in 1..Len(s) : s[j] = x})
 SameBag(s, t) == Len(s) = Len(t) /\ \A i \in 1..Len(s) : SxCount(s, s[i]) = SxCount(t, s[i])
@@ -27,16 +28,18 @@ IsTemplateCore(p) == p[3][1] \in {"eqslot", "inslot", "isinslot"} \/ p[5][1] \in
 Statics(s) == SelectSeq(s, LAMBDA p : ~IsTemplateCore(p))
 
 ViewOk(v, exp) ==
-  /\ v.k \in {"seq", "bag", "bagS"}
+  /\ v.k = "ok"
   /\ \A i \in 1..Len(v.p) : SxWireAnnOk(v.p[i])
   /\ LET got == SxSeqOfWire(v.p)
-     IN CASE v.k = "seq" -> got = exp
-          [] v.k = "bag" -> SameBag(got, exp)
-          [] v.k = "bagS" -> SameBag(got, Statics(exp))
+     IN \A u \in UsesOf(v) :
+          CASE u[1] = "seq" -> got = exp                      \* ids are stable: same policies in the same order
+            [] u[1] = "bag" -> SameBag(got, exp)              \* a printed set: same collection
+            [] u[1] = "bagS" -> SameBag(got, Statics(exp))
+            [] OTHER -> FALSE
 
 AllViewsOk(views, exp) ==
   /\ \A i \in 1..Len(views) : ViewOk(views[i], exp)
-  /\ Paths \subseteq UNION {FromOf(views[i]) : i \in 1..Len(views)}
+  /\ Paths \subseteq {u[2] : u \in UNION {UsesOf(views[i]) : i \in 1..Len(views)}}
 
 Explained(ev) ==
   CASE ev.ev = "Syntax" -> AllViewsOk(ev.views, SxSetCore(ev.pols))
